@@ -157,16 +157,18 @@ Definition continue_ok (G : omen) (s : saved) (rest : list ostr) : bool :=
   end.
 
 (* C15, two quit/resume cycles through the session-level model: first quit
-   inside the level (state1 pickled), resume, second quit ([inside]: again
-   inside the restored level, state2 pickled; otherwise outside any Markov
-   level), resume: [third] = what restore_omen emitted in the third run, None
+   after a guess of the level (state1 pickled), resume; in the second session
+   [omen_exit2] says whether the quit was seen after a guess of the restored
+   level (state2 pickled then); false covers a quit outside any Markov level
+   AND a quit flag raised during the exhausting next_guess call of the
+   restored level.  [third] = what restore_omen emitted in the third run, None
    when the third run did not restore a level *)
-Definition check_two_cycle (G : omen) (state1 : saved) (inside : bool) (state2 : saved)
+Definition check_two_cycle (G : omen) (state1 : saved) (omen_exit2 : bool) (state2 : saved)
            (third : option (list ostr)) : bool :=
   let cfg1 := sess_quit sess_empty true 0 state1 in
-  let cfg1' := snd (sess_restore omen_number_cleared cfg1) in
-  let cfg2 := sess_quit cfg1' inside 0 state2 in
-  match fst (sess_restore omen_number_cleared cfg2), third with
+  let cfg1' := snd (sess_restore omen_number_cleared cfg1 omen_exit2) in
+  let cfg2 := sess_quit cfg1' omen_exit2 0 state2 in
+  match fst (sess_restore omen_number_cleared cfg2 false), third with
   | None, None => true
   | Some s, Some out => continue_ok G s out
   | _, _ => false
